@@ -172,7 +172,84 @@ def run_generated(prop, seed, run_idx, tier, known=None):
               'subs': subs, 'prelude': prelude, 'events': calls}
     if run.baked is not None and run.eager_ok and rng.random() < profile.get('p_chain', 0.15):
         record['chain'] = second_recipe(rng, run, g, profile, known)
+    if run.eager_ok and rng.random() < profile.get('p_alias', 0.1):
+        from .engine_a import alias_spec
+        spec = alias_spec(rng, subs, prelude)
+        stages = sorted(set(c['name'] for c in calls if c['c'] == 'start_stage') - {'all'})     # 'all' is reserved: it keeps its meaning
+        pool = ['All', 'ALL', ' all', 'all ', 'None', '0', 'stage'] + [n for n in run.lc.declared[:3]] + [s[0] for s in subs[:2]]
+        rng.shuffle(pool)
+        spec['stages'] = {}
+        for i, s in enumerate(stages):
+            new = pool[i] if i < len(pool) else f"z{i}"
+            spec['stages'][s] = new if new not in spec['stages'].values() else f"z{i}"
+        record['alias'] = spec
+        alias_program(record, run, known)
     return record, run
+
+
+def alias_program(record, run, known):
+    """The same program with the substances, the plate labels and the stages called something else: every call is decided
+    alike, bake returns the same values, every tracking question gets the same answer."""
+    import copy
+    from .engine_a import model_diff
+    from .engine_c import query_answers
+    spec = record['alias']
+    subs3 = [list(s[:5]) + [spec['names'][i]] for i, s in enumerate(record['subs'])]
+    prelude3 = copy.deepcopy(record.get('prelude', []))
+    for ev in prelude3:
+        if ev.get('op') == 'new_plate':
+            for axis in ('rows', 'cols'):
+                new = spec['labels'].get(f"{ev['name']}:{axis}")
+                if new is not None and isinstance(ev[axis], list) and len(new) == len(ev[axis]):
+                    ev[axis] = list(new)
+    smap = spec.get('stages', {})
+    calls3 = copy.deepcopy(record['events'])
+    for c in calls3:
+        if c['c'] in ('start_stage', 'end_stage') and c['name'] in smap:
+            c['name'] = smap[c['name']]
+        if c['c'].startswith('q_') and c.get('tf') in smap:
+            c['tf'] = smap[c['tf']]
+    prof = dict(record.get('profile', {}), shadow=False)
+    try:
+        run3 = RecipeRun(run.rep, subs3, known, prof)
+    except ValueError:
+        return
+    run3.bench.instr_hooks = []          # the instruction oracle reads names
+    for ev in prelude3:
+        run3.bench.step(ev)
+    for c in calls3:
+        run3.do_call(c)
+    run.stats['probe:alias_program'] += 1
+    told = f"substances called {spec['names']}, labels {spec['labels']}, stages {smap}"
+    a, b3 = [x for x in run.log if 'c' in x], [x for x in run3.log if 'c' in x]
+    for i, (x, y) in enumerate(zip(a, b3)):
+        if x.get('c') == y.get('c') and x.get('out') != y.get('out'):
+            run.V('C16' if x['c'] != 'bake' else 'C08', 'depends_on_names', (x['c'], 'outcome'),
+                  f"call {i} ({x['c']}) -> {x.get('out')}; with {told} -> {y.get('out')}")
+            return
+    if (run.baked is None) != (run3.baked is None):
+        return
+    if run.baked is not None:
+        for n in run.baked:
+            if n in run3.baked:
+                d = model_diff(run.W, run.W.alpha(run.baked[n]), run3.W.alpha(run3.baked[n]))
+                if d:
+                    run.V('C08', 'depends_on_names', ('bake', 'value'), f"bake()[{n}]: {d} - the only difference is the names: {told}")
+                    return
+        q1 = query_answers(run, [c for c in record['events'] if c['c'].startswith('q_')])
+        q3 = query_answers(run3, [c for c in calls3 if c['c'].startswith('q_')])
+        for x, y in zip(q1, q3):
+            if x[0] != y[0] or x[1] != y[1]:
+                break
+            same = x[4] == y[4]
+            if same and x[5] is not None and y[5] is not None:
+                xs = x[5] if isinstance(x[5], list) else [x[5]]
+                ys = y[5] if isinstance(y[5], list) else [y[5]]
+                same = len(xs) == len(ys) and all(abs(p - q) <= 1e-9 * max(abs(p), abs(q)) + 1e-12 for p, q in zip(xs, ys))
+            if not same:
+                prop = 'C09' if x[0] == 'used' else 'C15'
+                run.V(prop, 'depends_on_names', (x[0],), f"{x[:4]} -> {x[4]} {x[5]}; with {told} -> {y[4]} {y[5]}", run.first_excuse((prop,)))
+                return
 
 
 def carry_over(run, known, profile):
@@ -272,4 +349,6 @@ def run_replay(record, known=None):
         for c in ch['events']:
             run2.do_call(c)
         fold(run, run2)
+    if record.get('alias') and run.eager_ok:
+        alias_program(record, run, known)
     return run
